@@ -114,6 +114,101 @@ def tokenizer_b(out, tier, scratch, rng):
             tokenizerb_disagree=dis)
 
 
+FLEX = {'F': 'f', 'QS': "'", 'QD': '"', 'X': 't', 'T': 'a', 'LB': '{', 'RB': '}', 'CO': ':', 'BA': '!', 'O': '(', 'C': ')',
+        'W': ' '}
+FB_INVS = ['Tiles', 'Balanced', 'NoIndentInside', 'StringsPure', 'Columns', 'EnvOk']
+
+
+def _fb_valid(ls):
+    for a, b in zip(ls, ls[1:]):
+        if a in 'FXT' and b in 'FXT':
+            return False
+    for a, b, c in zip(ls, ls[1:], ls[2:]):
+        if a in ('QS', 'QD') and a == b == c:
+            return False
+    return True
+
+
+def fstring_b(out, tier, scratch, rng):
+    """FStringB (line-at-a-time model of the f-string sub-machine): design invariants explored exhaustively; real
+    token streams of every valid line of <= 4 lexemes and of random 1-3 line texts are compared with the spec's
+    Predict (code -> spec); simulated multi-line runs are rendered and tokenized for real (spec -> code)."""
+    import itertools
+    import json
+    from harness import tlc
+    from parso.python.tokenize import tokenize
+    from parso.utils import parse_version_string
+    d = scratch.sub('fb')
+    fb = {'maxlen': 3, 'maxlines': 2 if tier == 'quick' else 3, 'hist': False, 'maxind': 3, 'mode': 'explore', 'traces': []}
+    cfg = 'SPECIFICATION Spec\nCHECK_DEADLOCK FALSE\n' + ''.join('INVARIANT %s\n' % i for i in FB_INVS)
+    tlc.prepare(d, ['TokEnv', 'FStringB'], {'fb.json': json.dumps(fb)})
+    res = tlc.run(d, 'FStringB', cfg, workers=4, timeout=3000)
+    out.add('states', res.distinct)
+    out.add('transitions', res.generated)
+    if res.violated:
+        out.drift.append('FStringB violates %s: %s' % (res.violated, res.out[-600:]))
+
+    def real(lines, ver):
+        text = ''.join(''.join(FLEX[x] for x in ln) + '\n' for ln in lines)
+        return text, [[t.type.name, list(t.string), t.start_pos[1], list(t.prefix)]
+                      for t in tokenize(text, version_info=parse_version_string(ver))]
+    L = sorted(FLEX)
+    traces = []
+    texts = {}
+    for k in range(0, 5):
+        for ls in itertools.product(L, repeat=k):
+            if _fb_valid(ls):
+                text, toks = real([ls], '3.8')
+                traces.append({'id': len(traces) + 1, 'lines': [list(ls)], 'toks': toks})
+                texts[len(traces)] = text
+    target = len(traces) + (25000 if tier == 'quick' else 250000)
+    while len(traces) < target:
+        lines = []
+        for _ in range(rng.choice([1, 1, 2, 3])):
+            ln = [rng.choice(L) for _ in range(rng.randrange(0, 10))]
+            if rng.random() < .7:
+                ln = ['F', rng.choice(['QS', 'QD'])] + ln
+            lines.append(ln)
+        if all(_fb_valid(ln) for ln in lines):
+            text, toks = real(lines, rng.choice(['3.6', '3.8', '3.12', '3.13']))
+            traces.append({'id': len(traces) + 1, 'lines': lines, 'toks': toks})
+            texts[len(traces)] = text
+    acc = rej = 0
+    for i in range(0, len(traces), 40000):
+        dd = scratch.sub('fbt%d' % i)
+        fb.update(mode='trace', traces=traces[i:i + 40000], maxlen=0, maxlines=0)
+        tlc.prepare(dd, ['TokEnv', 'FStringB'], {'fb.json': json.dumps(fb)})
+        r = tlc.run(dd, 'FStringB', 'SPECIFICATION Spec\nCHECK_DEADLOCK FALSE\n', workers=1, timeout=1800)
+        summ = r.printed('SUMMARY')
+        if not summ:
+            raise tlc.TLCError('FStringB trace run did not finish: ' + r.out[-800:])
+        acc += summ[-1][1]
+        rej += summ[-1][2]
+        for x in r.printed('REJECT')[:3]:
+            out.drift.append('FStringB and the real tokenizer disagree (%s) on %r' % (x[3], texts.get(x[1])))
+        out.add('states', r.distinct)
+        out.add('transitions', r.generated)
+    # spec -> code: simulated runs of up to 3 lines with up to 6 lexemes
+    ds = scratch.sub('fbs')
+    fb.update(mode='explore', traces=[], maxlen=2, maxlines=3, hist=True)
+    tlc.prepare(ds, ['TokEnv', 'FStringB'], {'fb.json': json.dumps(fb)})
+    sim = tlc.run(ds, 'FStringB', cfg, workers=2, simulate='num=%d' % (300 if tier == 'quick' else 4000), depth=5,
+                  seed=rng.randrange(1 << 30), timeout=900)
+    agree = dis = 0
+    for run_ in sim.printed('FRUN'):
+        lines, want = run_[1], run_[2]
+        text, got = real([list(ln) for ln in lines], '3.9')
+        want = [[t[0], list(t[1]), t[2], list(t[3])] for t in want]
+        if want == got:
+            agree += 1
+        else:
+            dis += 1
+            if dis <= 3:
+                out.drift.append('FStringB run and the real tokenizer disagree on %r' % text)
+    out.cov(fstringb_exhaustive_states=res.distinct, fstringb_traces_accepted=acc, fstringb_traces_rejected=rej,
+            fstringb_runs_replayed=agree + dis, fstringb_runs_agree=agree)
+
+
 def classify(rej):
     """cause key of a rejected observation"""
     r = rej['reject']
@@ -164,6 +259,7 @@ def run(tier):
         out.assumptions += ['TLC and the JSON recorder layer are trusted; recorders log values only',
                             'positions: only \\n, \\r\\n, \\r are line breaks, a leading BOM has zero width']
         tokenizer_b(out, tier, scratch, rng)
+        fstring_b(out, tier, scratch, rng)
         bind = selftest.binding_tokens(scratch.sub('bind'))
         out.cov(binding_demonstrated=bind)
         if not bind['ok']:
